@@ -371,8 +371,63 @@ def job_quad_general(cfg):
     return res
 
 
+def job_taper(cfg):
+    """measure and centroid of a mesh of the unit square / cube whose nodes are moved by the non-affine map x -> x (1 + a y) with a SYMBOLIC taper a:
+    straight-sided, non-parallelogram (non-parallelepiped) elements, Jacobian not constant inside an element.  Closed forms:
+    measure = 1 + a/2,  x_c = (1 + a + a^2/3) / (2 + a),  y_c = (1/2 + a/3) / (1 + a/2),  z_c = 1/2."""
+    from EasyFEA.FEM._group_elem import GroupElemFactory
+    from EasyFEA.FEM._utils import ElemType
+    from checks import simlib
+
+    res = JobResult(cfg)
+    c = new_context()
+    facade.install()
+    et = cfg["elem"]
+    mesh = simlib.gmsh_mesh(et, layers=1)
+    g0 = mesh.groupElem
+    dim = g0.dim
+    a = c.var("taper", 0, Fraction(1, 2), shadow=Fraction(3, 10))
+    res.symbols = 1
+    X0 = np.asarray(mesh.coord, dtype=float)
+    P = np.zeros(X0.shape, dtype=object)
+    for n in range(X0.shape[0]):
+        x, y, z = (Fraction(float(v)) for v in X0[n])
+        P[n] = [x * (1 + a * y), y, z]
+    key = f"{et} tapered mesh of the unit {'square' if dim == 2 else 'cube'}"
+    res.functions |= {"_GroupElem.center", "_GroupElem.area", "_GroupElem.volume", "_GroupElem.Get_weightedJacobian_e_pg", "_GroupElem.Get_GaussCoordinates_e_pg", "_GroupElem.Integrate_e"}
+    mark = c.mark()
+    with facade.symbolic():
+        g = GroupElemFactory.Create(ElemType[et], np.asarray(g0.connect), P)
+        measure = g.area if dim == 2 else g.volume
+        center = np.asarray(g.center, dtype=object)
+    pcs = c.pc_since(mark)
+    res.paths, res.path_conditions = 1, len(pcs)
+    want_m = 1 + a / 2
+    want_c = [(1 + a + a * a / 3) / (2 + a), (Fraction(1, 2) + a / 3) / (1 + a / 2), Fraction(1, 2) if dim == 3 else 0]
+
+    def replay(env):
+        af = float(as_sym(a).eval({k: float(v) for k, v in {**c.shadow, **(env or {})}.items()}))
+        Pf = X0.copy()
+        Pf[:, 0] = X0[:, 0] * (1 + af * X0[:, 1])
+        g2 = GroupElemFactory.Create(ElemType[et], np.asarray(g0.connect), Pf)
+        m2 = float(g2.area if dim == 2 else g2.volume)
+        c2 = np.asarray(g2.center, dtype=float)
+        wc = np.array([(1 + af + af * af / 3) / (2 + af), (0.5 + af / 3) / (1 + af / 2), 0.5 if dim == 3 else 0.0])
+        bad = abs(m2 - (1 + af / 2)) > 1e-9 or float(np.abs(c2 - wc).max()) > 1e-9
+        return bad, {"taper": af, "measure": m2, "exact_measure": 1 + af / 2, "center": c2.tolist(), "exact_center": wc.tolist()}
+
+    res.record(f"{key}: measure = 1 + a/2", prove_abs_le(as_sym(measure) - want_m, TOL * 10, pcs, key), replay, key=f"{et} measure of a tapered mesh",
+               sample={"elem": et, "obligation": "for all tapers a in [0, 1/2]: |measure - (1 + a/2)| <= 1e-10 and |center - closed form| <= 1e-10"})
+    for d in range(3):
+        res.record(f"{key}: center[{d}]", prove_abs_le(as_sym(center[d]) - want_c[d], TOL * 10, pcs, key), replay, key=f"{et} centroid of a tapered mesh")
+    o = prove_abs_le(as_sym(center[0]) - want_c[0] * Fraction(1001, 1000), TOL * 10, pcs, "twin")
+    res.twin(f"{key} twin", o.status == "cex")
+    res.stubs |= facade.USED_STUBS
+    return res
+
+
 def job(cfg):
-    return {"rule": job_rule, "factory": job_factory, "measure": job_measure, "quad": job_quad_general}[cfg["kind_"]](cfg)
+    return {"rule": job_rule, "factory": job_factory, "measure": job_measure, "quad": job_quad_general, "taper": job_taper}[cfg["kind_"]](cfg)
 
 
 def main():
@@ -389,6 +444,8 @@ def main():
     for et in elems:
         configs.append({"kind_": "measure", "elem": et, "deg": 1})
     configs.append({"kind_": "quad"})
+    for et in ["QUAD4", "QUAD9", "HEXA8"] + (["QUAD8", "HEXA20", "HEXA27", "PRISM6", "TRI6"] if tier == "thorough" else []):
+        configs.append({"kind_": "taper", "elem": et})
     results = harness.run_jobs(job, configs)
     harness.finish(
         PID, results, t0=t0,
